@@ -41,7 +41,10 @@ RULE = ('array cases = (record, container, dt, trap in {True,False}, call style)
         '1e+-165..1e+-200 (clause peak.scale|alpha|.extreme), one sample 1e3..1e16 times larger than the others (first / last / inside, optionally followed by '
         'its negative), quiet-but-not-silent lead-in with all the action in the last 1/k, constant with a single '
         'changed sample, alternating sign with an offset; n in [2,5000] incl. 2^k-1, 2^k, 2^k+1 and a few records of 65537..100000 samples per run. '
-        'Containers: float64, float32, int64, int32, int16, int8, uint8, uint16 with ordinary magnitudes and '
+        'Containers: float64, float32, int64, int32, int16, int8, uint8, uint16 with ordinary magnitudes, bool '
+        '(round 4: on/off records - thresholded noise / quake records, 1-5 rectangular pulses, a step, all on, all off, '
+        'one isolated on-sample, alternating, on except one sample - as numpy bool arrays incl. strided / reversed / '
+        'read-only views and as lists / tuples of Python bools; judged against the record with samples 0.0 / 1.0) and '
         '"narrow-full" records (int8/uint8/int16/uint16/int32/int64 using 95% of the dtype\'s range, some containing '
         'iinfo.min / iinfo.max, so that neighbour sums, integer dt * sample and abs() leave the dtype), '
         'x[::2]-type and negative-stride views, read-only arrays, lists / tuples of floats, of Python ints, mixed '
@@ -95,7 +98,10 @@ ASSUMPTIONS = ['finite real 1-D record of length >= 2, dt > 0 (dt = 0, negative 
                'not judged), trap a Python bool (0 / 1 / None / numpy.bool_: probed, not judged)',
                'integer records of any width and magnitude are in domain; the oracle works on their float64 image '
                '(exact below 2**53, correctly rounded above)',
-               'float16 and bool records are outside the quantifier (probed only); complex records are in domain only '
+               'bool records (numpy bool arrays, lists / tuples of Python bools) are in domain: the library casts dtype '
+               'kinds i, u and b to float on purpose, so an on/off record is the record with samples 0.0 / 1.0 and the '
+               'oracle works on that float64 image',
+               'float16 records are outside the quantifier (probed only); complex records are in domain only '
                'when the imaginary part is at rounding level (<= 1e-9 of the real part: what fas2signal returns) and '
                'are then judged in complex arithmetic; genuinely complex "accelerations" are counted, not judged '
                '(on them trap=False keeps the real part only and calc_peak orders lexicographically)',
@@ -148,7 +154,8 @@ MIN_EVALS = {
               'obj==array': 5300, 'obj.no-exception': 44000, 'obj.derived.source-untouched': 750,
               'obj.twin.untouched-object-still-consistent': 320, 'obj.twin.held-series-unchanged': 320,
               'array.repeat==first': 7000, 'obj.repeat==first': 250, 'obj.copy.idle-object-unchanged': 650,
-              'obj.copy.peaks-scale|alpha|': 150},
+              'obj.copy.peaks-scale|alpha|': 150,
+              'array.bool-record==integral(0/1 record)': 500, 'obj.bool-record==integral(0/1 record)': 100},
 }
 MIN_EVALS['thorough'] = {k: v * 20 for k, v in MIN_EVALS['quick'].items()}
 
@@ -181,7 +188,7 @@ def _domain(acc, dt, trap=True, min_len=2):
             pass
         else:
             return 'complex-record'
-    elif arr.dtype.kind not in 'fiu':
+    elif arr.dtype.kind not in 'fiub':      # (bool: on/off records, cast to 0.0 / 1.0 by the library on purpose)
         return 'dtype-kind-' + arr.dtype.kind
     if arr.dtype.kind == 'f' and arr.dtype.itemsize < 4:
         return 'float16'
@@ -191,7 +198,8 @@ def _domain(acc, dt, trap=True, min_len=2):
         if not bool(np.all(np.isfinite(arr))):
             return 'nonfinite-record'
     else:
-        pass        # integer records of any width and magnitude are in domain (the oracle works on their float64 image)
+        pass        # integer / bool records of any width and magnitude are in domain (the oracle works on their
+                    # float64 image: False -> 0.0, True -> 1.0)
     if dt is not None:
         if isinstance(dt, (bool, np.bool_, complex)) or (isinstance(dt, np.ndarray) and dt.ndim != 0):
             return 'dt-type'
@@ -512,6 +520,34 @@ def _vs_current_values(vals, dt, mode, which, got):
     return best
 
 
+def _vs_given_record(rec, dt, mode, v, d, peaks=None):
+    """(ok, text): series (and peaks) against what the oracle integrates from the record THE CALLER GAVE (float64 image;
+    for an on/off record the samples 0.0 / 1.0), closest admissible rule combination."""
+    rec = O.f64(rec)
+    n = len(rec)
+    if np.shape(v) != (n,) or np.shape(d) != (n,):
+        return False, 'shapes %s %s for a record of %d samples' % (np.shape(v), np.shape(d), n)
+    eps = O.eps_of(np.asarray(v), np.asarray(d))
+    vf, df = O.f64(v), O.f64(d)
+    best = None
+    for rv, rd, rv_, rd_ in O.reference_pairs(rec, dt, bool(mode)):
+        tv, td = O.running_sum_tolerances(eps, n, dt, O.max_abs(rec), O.max_abs(rv_), O.max_abs(rd_))
+        with np.errstate(invalid='ignore'):
+            ev = float(np.max(np.abs(vf - rv_)))
+            ed = float(np.max(np.abs(df - rd_)))
+            ep = 0.0
+            if peaks is not None:
+                ep = max(abs(peaks[1] - O.max_abs(rv_)) / tv, abs(peaks[2] - O.max_abs(rd_)) / td,
+                         0.0 if peaks[0] == O.max_abs(rec) else float('inf'))
+        score = max(ev / tv, ed / td, ep)
+        score = float('inf') if score != score else score
+        if best is None or score < best[0]:
+            best = (score, 'max dv=%.3g (allowed %.3g) max dd=%.3g (allowed %.3g)%s, %s/%s rule'
+                    % (ev, tv, ed, td, '' if peaks is None else ' peaks %r vs %r' % (
+                        list(peaks), [O.max_abs(rec), O.max_abs(rv_), O.max_abs(rd_)]), rv, rd))
+    return best[0] <= 1.0, best[1]
+
+
 def check_obj_peak(ctx, obj, name, result):
     why = _domain(obj.values, obj.dt, True)
     if why:
@@ -616,9 +652,10 @@ def install(ctx):
 
 # ------------------------------------------------------------------------------------------------------ generators
 ARRAY_CONTAINERS = ['f64', 'f64', 'f64', 'f32', 'f32', 'i64', 'i64', 'i32', 'i16', 'i8', 'u8', 'u16', 'strided',
-                    'reversed', 'readonly', 'list', 'list', 'tuple', 'intlist', 'mixedlist', 'narrow-full']
+                    'reversed', 'readonly', 'list', 'list', 'tuple', 'intlist', 'mixedlist', 'narrow-full',
+                    'bool', 'bool', 'boollist']
 OBJ_CONTAINERS = ['f64', 'f64', 'f32', 'f32', 'i64', 'i64', 'i32', 'i16', 'i8', 'u8', 'u16', 'list', 'list', 'tuple',
-                  'intlist', 'mixedlist', 'strided', 'reversed', 'readonly', 'narrow-full']
+                  'intlist', 'mixedlist', 'strided', 'reversed', 'readonly', 'narrow-full', 'bool', 'bool', 'boollist']
 EXTRA_CLASSES = ['neg-only', 'pos-only', 'const', 'const', 'linear', 'linear', 'linear', 'extreme-first', 'extreme-last',
                  'spike-dynamic-range', 'spike-dynamic-range', 'tail-heavy', 'single-changed', 'alt+offset',
                  'plateau-start', 'plateau-end', 'ends-after-sign-change', 'offset-small-signal', 'scaled', 'silent']
@@ -762,6 +799,44 @@ def _shaped_record(rng, n, cls):
     return x
 
 
+def _bool_record(rng, x):
+    """On/off record (dtype bool) of the length of x: the library casts bool like integer counts, so True is the sample
+    1.0 and False the sample 0.0. Thresholded records (runs of every length), rectangular pulses, a single step, all on,
+    all off, one isolated on-sample, alternating, on except for one sample."""
+    x = np.asarray(x, dtype=float)
+    n = len(x)
+    shape = ['sign', 'median', 'level', 'pulses', 'pulses', 'pulse', 'step', 'all-on', 'all-off', 'single',
+             'alternating', 'one-off'][int(rng.integers(12))]
+    if shape == 'sign':
+        b = x > 0
+    elif shape == 'median':
+        b = x >= np.median(x)
+    elif shape == 'level':
+        b = np.abs(x) > float(rng.choice([0.1, 0.5, 0.9])) * (float(np.max(np.abs(x))) if n else 0.0)
+    elif shape in ('pulses', 'pulse'):
+        b = np.zeros(n, dtype=bool)
+        for _ in range(1 if shape == 'pulse' else int(rng.integers(2, 6))):
+            i0 = int(rng.integers(0, n))
+            b[i0:i0 + int(rng.integers(1, max(2, n // 3) + 1))] = True
+    elif shape == 'step':
+        b = np.arange(n) >= int(rng.integers(0, n))
+        if rng.random() < 0.5:
+            b = ~b
+    elif shape == 'all-on':
+        b = np.ones(n, dtype=bool)
+    elif shape == 'all-off':
+        b = np.zeros(n, dtype=bool)
+    elif shape == 'single':
+        b = np.zeros(n, dtype=bool)
+        b[[0, n - 1, int(rng.integers(n))][int(rng.integers(3))]] = True
+    elif shape == 'alternating':
+        b = (np.arange(n) + int(rng.integers(2))) % 2 == 0
+    else:
+        b = np.ones(n, dtype=bool)
+        b[[0, n - 1, int(rng.integers(n))][int(rng.integers(3))]] = False
+    return np.array(b, dtype=bool)
+
+
 def to_container(rng, x, kind, lin=None, dt=1.0):
     """(base ndarray of the final dtype, container kind for materialise, lin adjusted to the stored record)."""
     x = np.asarray(x, dtype=float)
@@ -781,6 +856,12 @@ def to_container(rng, x, kind, lin=None, dt=1.0):
         elif r < 0.5:
             xi[int(rng.integers(len(xi)))] = info.max
         return xi, ['array', 'array', 'strided', 'readonly'][int(rng.integers(4))], None
+    if kind in ('bool', 'boollist'):
+        b = _bool_record(rng, x)
+        lin = (1.0, 0.0) if bool(b.all()) else ((0.0, 0.0) if not bool(b.any()) else None)
+        if kind == 'boollist':
+            return b, ['list', 'list', 'tuple'][int(rng.integers(3))], lin
+        return b, ['array', 'array', 'array', 'strided', 'reversed', 'readonly'][int(rng.integers(6))], lin
     if kind in INT_TOP:
         if kind[0] == 'u':
             x = np.abs(x)
@@ -1193,6 +1274,16 @@ def _array_case(eqsig, ctx, case, held, first):
         ctx.check(ev <= tv and ed <= td, 'array.alias==primary', wit,
                   '%s and %s disagree (trap=%r): max dv=%.3g (allowed %.3g) max dd=%.3g (allowed %.3g)'
                   % (fname, oname, trap, ev, tv, ed, td))
+    if base.dtype.kind == 'b':
+        # on/off record: the series are those of the record with samples 0.0 / 1.0 (two neighbouring on-samples add up
+        # to 2), with both rules
+        for trap in (True, False):
+            if res[trap] is None:
+                continue
+            okk, txt = _vs_given_record(xs, dt, trap, res[trap][0], res[trap][1])
+            ctx.check(okk, 'array.bool-record==integral(0/1 record)', wit,
+                      '%s(%s of bool, n=%d, dt=%r, trap=%r) vs the integral of the 0.0/1.0 record: %s'
+                      % (fname, cont, n, dt, trap, txt))
     dep = bool(case.get('deprecated_peak'))
     p_x = _peak(ctx, eqsig, X, case, dep)
     first['p_x'] = p_x
@@ -1279,7 +1370,7 @@ def _array_case(eqsig, ctx, case, held, first):
     # |alpha| scaling across ~180 decades: a record whose SQUARES under- / overflow while every value, its integrals
     # and its peaks are ordinary finite doubles (float64 records only)
     xa = case.get('xalpha')
-    if xa is not None and base.dtype.kind in 'iu' or (xa is not None and base.dtype == np.float64):
+    if xa is not None and base.dtype.kind in 'iub' or (xa is not None and base.dtype == np.float64):
         xa = float(xa)
         f = abs(xa)
         span = max(1.0, n * abs(float(dt)), (n * abs(float(dt))) ** 2)
@@ -1569,6 +1660,25 @@ def _do_op(eqsig, ctx, a, op, scen, k, who=''):
     return None
 
 
+KEEPS_RECORD = ('read', 'rs', 'warm', 'feed', 'agree', 'derive', 'generate', 'clear_cache')
+
+
+def _given_bool_record(ctx, a, given, dt, scen, k):
+    mode = MODE.get(a, True)
+    if mode is None or _domain(given, dt, True) is not None:
+        return
+    try:
+        v, d = a.velocity, a.displacement
+        peaks = [float(a.pga), float(a.pgv), float(a.pgd)]
+    except Exception as e:
+        ctx.exception('obj.no-exception', dict(scen, failed_at='op %d reads of the on/off record' % k), e)
+        return
+    okk, txt = _vs_given_record(given, dt, mode, v, d, peaks)
+    ctx.check(okk, 'obj.bool-record==integral(0/1 record)', lambda: dict(scen, failed_at='op %d read' % k),
+              'AccSignal given a bool record (n=%d, dt=%r, trap=%r) vs the integral of the 0.0/1.0 record: %s'
+              % (len(given), dt, mode, txt))
+
+
 def run_object_scenario(eqsig, ctx, scen):
     CUR['scenario'] = scen
     CUR['after_switch'] = False
@@ -1582,9 +1692,19 @@ def run_object_scenario(eqsig, ctx, scen):
             except Exception as e:
                 ctx.exception('obj.no-exception', dict(scen, failed_at='AccSignal()'), e)
                 return
+            given = np.asarray(scen['acc']) if np.asarray(scen['acc']).dtype.kind == 'b' else None
             for k, op in enumerate(scen['ops']):
                 if _do_op(eqsig, ctx, a, op, scen, k) == 'stop':
                     return
+                # on/off records: what the object reports is judged against the record THE CALLER GAVE (samples
+                # 0.0 / 1.0), at the first read after the object received it
+                if op[0] == 'reset_values':
+                    given = np.asarray(op[1]) if np.asarray(op[1]).dtype.kind == 'b' else None
+                elif op[0] not in KEEPS_RECORD:
+                    given = None
+                if given is not None and op[0] == 'read':
+                    _given_bool_record(ctx, a, given, dt, scen, k)
+                    given = None
     finally:
         CUR['scenario'] = None
         CUR['after_switch'] = False
@@ -2116,6 +2236,19 @@ def _fixed_cases():
                     'ops': [['read', list(READS)], ['agree'], ['add_constant', 1], ['read', list(READS)],
                             ['rebase_displacement'], ['read', list(READS[::-1])], ['agree'],
                             ['generate', False, 'pos'], ['read', list(READS)], ['agree']]})
+    # on/off records (dtype bool / lists of Python bools): True is the sample 1.0; neighbouring on-samples must add up to 2
+    pulse = np.array([False, True, True, True, False, True, True, False])
+    for base, cont, dt, lin in ((pulse, 'array', 0.5, None), (pulse, 'list', 2, None), (pulse[1:4], 'tuple', 0.01, [1.0, 0.0]),
+                                (np.array([True, True]), 'array', 1.0, [1.0, 0.0]), (~pulse, 'readonly', np.float32(0.25), None)):
+        out.append({'kind': 'arraycase', 'acc': base, 'container': cont, 'ckind': 'fixed-bool', 'cls': 'fixed',
+                    'dt': dt, 'dt_kind': _dt_kind(dt), 'lin': lin, 'fn': 'calc_velo_and_disp_from_accel_arr',
+                    'rel_trap': True, 'pow2': -2.0, 'alpha': 2.5, 'beta': -0.75,
+                    'other': np.arange(len(base), dtype=float), 'deprecated_peak': False, 'style': 'default'})
+        out.append({'kind': 'object', 'acc': base, 'container': cont, 'ckind': 'fixed-bool', 'cls': 'fixed',
+                    'dt': dt, 'dt_kind': _dt_kind(dt),
+                    'ops': [['read', list(READS)], ['agree'], ['reset_values', ~pulse, 'list'], ['read', list(READS[::-1])],
+                            ['agree'], ['reset_values', pulse, 'array'], ['generate', False, 'kw'], ['read', list(READS)],
+                            ['generate', True, 'default'], ['read', ['pgd', 'pgv', 'velocity']], ['agree']]})
     out.append({'kind': 'object', 'acc': np.array([1.0, 2.0]), 'container': 'array', 'ckind': 'fixed', 'cls': 'fixed',
                 'dt': 1.0, 'dt_kind': 'float',
                 'ops': [['read', ['pgv', 'pgd']], ['generate', False], ['read', ['velocity', 'pgv', 'pgd', 'pga']],
